@@ -1,9 +1,772 @@
-(* C17 - every error points at the token that caused it.  (a) the line/column computation is
-   proved in Props/C16.v (C17_token_location); the debug-map theorems are added with Proofs/BuildProofs.v *)
+(* C17 - every error points at the token that caused it.
+   (a) the line/column computation (C17_token_location_line_col, Proofs/LexLoc.v);
+   (b) the debug map (Proofs/DbgMap*.v): 1 alignment with the code in every reachable state,
+       2 provenance of every entry (a token of the named source, the token current at the
+       emission), 3 a run-time error leaves ip at the failing cell, 4 a build-time error leaves
+       the token being processed as the last token, 5 later sources never touch the entries or
+       the texts of earlier ones. *)
 From Xeh Require Import Model.Prelude Model.Bits Model.Cell Model.Lexer Proofs.LexProofs.
+From Xeh Require Import Model.Vm Model.Words Model.Build Model.Boot.
+From Xeh Require Import Proofs.VmLimits Proofs.DbgMapVm Proofs.DbgMapAlign Proofs.DbgMapRun Proofs.DbgMapStmts.
+From Xeh Require Import Proofs.DbgMapProv Proofs.DbgMapProvApi Proofs.DbgMapMulti Proofs.DbgMapErr Proofs.DbgMapStmts2.
 
 Theorem C17_token_location_line_col : forall s p, valid_utf8 s = true -> s <> EmptyString -> p <= String.length s ->
   token_location s p = (spec_line s p, spec_col s p, spec_line_start s p, spec_line_end s p).
 Proof. exact token_location_spec_weak. Qed.
 Check C17_token_location_line_col : forall s p, valid_utf8 s = true -> s <> EmptyString -> p <= String.length s ->
   token_location s p = (spec_line s p, spec_col s p, spec_line_start s p, spec_line_end s p).
+
+(* ====================================================================================== *)
+(* (b) the debug map.  [dbg s] holds one token reference (source index, byte start, byte end)
+   per bytecode cell of [code s]; the location of a run-time error is read from
+   [nth_error (dbg s) (ip s)], that of a build-time error from [last_tok s]. *)
+
+(* ---------- 1. alignment ---------- *)
+Definition aligned (s : state) : Prop := List.length (dbg s) = List.length (code s).
+
+(* the states an embedding program can reach from boot through eval, compile, next, run,
+   rnext, setting limits and switching recording: every property that holds of boot and is
+   kept by every API call (in the state a result or an error leaves behind) holds of s *)
+Definition reachable (fo : fops) (pr : string -> option Z) (s : state) : Prop :=
+  forall P : state -> Prop,
+    P boot ->
+    (forall s rf bf src s', P s -> res_state (eval fo pr rf bf src s) = Some s' -> P s') ->
+    (forall s rf bf src s', P s -> res_state (compile fo pr rf bf src s) = Some s' -> P s') ->
+    (forall s s', P s -> res_state (next (native_fn fo) s) = Some s' -> P s') ->
+    (forall s fuel r s', P s -> run (native_fn fo) fuel s = Some r -> res_state r = Some s' -> P s') ->
+    (forall s s', P s -> res_state (rnext s) = Some s' -> P s') ->
+    (forall s i h k, P s -> P (set_limits s i h k)) ->
+    (forall s l, P s -> P (set_rlog s l)) ->
+    P s.
+
+(* the same closure as an inductive predicate (Proofs/DbgMapAlign.v) *)
+Theorem C17_reachable_is_inductive_closure :
+  forall fo pr s, reachable fo pr s <-> reach fo pr s.
+Proof. exact api_reach_iff. Qed.
+Check C17_reachable_is_inductive_closure :
+  forall fo pr s, reachable fo pr s <-> reach fo pr s.
+
+(* under alignment an emission appends ONE cell to the code and ONE entry, the current
+   token, to the debug map *)
+Theorem C17_align_code_emit :
+  forall op s, aligned s ->
+  code_emit op s =
+  ROk tt (set_code (set_dbg s (dbg s ++ [match last_tok s with Some t => t | None => (0, 0, 0) end]))
+                   (code s ++ [op])).
+Proof. exact code_emit_al. Qed.
+Check C17_align_code_emit :
+  forall op s, aligned s ->
+  code_emit op s =
+  ROk tt (set_code (set_dbg s (dbg s ++ [match last_tok s with Some t => t | None => (0, 0, 0) end]))
+                   (code s ++ [op])).
+
+(* backpatching replaces the instruction and leaves the debug entry of the cell (the token
+   that emitted the placeholder) alone *)
+Theorem C17_align_backpatch :
+  forall pos op s,
+  match backpatch pos op s with
+  | ROk _ s' => dbg s' = dbg s /\ code s' = list_set (code s) pos op /\
+                List.length (code s') = List.length (code s) /\ sources s' = sources s /\
+                last_tok s' = last_tok s
+  | RErr _ _ _ => False
+  | _ => True
+  end.
+Proof. exact backpatch_keeps. Qed.
+Check C17_align_backpatch :
+  forall pos op s,
+  match backpatch pos op s with
+  | ROk _ s' => dbg s' = dbg s /\ code s' = list_set (code s) pos op /\
+                List.length (code s') = List.length (code s) /\ sources s' = sources s /\
+                last_tok s' = last_tok s
+  | RErr _ _ _ => False
+  | _ => True
+  end.
+
+Theorem C17_align_backpatch_jump :
+  forall pos offs s,
+  res_all (fun s' => dbg s' = dbg s /\ List.length (code s') = List.length (code s) /\
+                     sources s' = sources s /\ last_tok s' = last_tok s)
+          (backpatch_jump pos offs s).
+Proof. exact backpatch_jump_keeps. Qed.
+Check C17_align_backpatch_jump :
+  forall pos offs s,
+  res_all (fun s' => dbg s' = dbg s /\ List.length (code s') = List.length (code s) /\
+                     sources s' = sources s /\ last_tok s' = last_tok s)
+          (backpatch_jump pos offs s).
+
+(* every immediate word of the dictionary (control flow, definitions, locals, variables,
+   meta blocks, let patterns, format words), for any fuel *)
+Theorem C17_align_immediate_words :
+  forall fo pr rf fuel name w, immediate_fn fo pr rf fuel name = Some w ->
+  forall s, aligned s -> res_all aligned (w s).
+Proof. exact al_immediate_fn_res. Qed.
+Check C17_align_immediate_words :
+  forall fo pr rf fuel name w, immediate_fn fo pr rf fuel name = Some w ->
+  forall s, aligned s -> res_all aligned (w s).
+
+Theorem C17_align_build_word :
+  forall fo pr rf fuel name s, aligned s -> res_all aligned (build_word fo pr rf fuel name s).
+Proof. exact al_build_word_res. Qed.
+Check C17_align_build_word :
+  forall fo pr rf fuel name s, aligned s -> res_all aligned (build_word fo pr rf fuel name s).
+
+Theorem C17_align_build1 :
+  forall fo pr rf fuel depth s, aligned s -> res_all aligned (build1 fo pr rf fuel depth s).
+Proof. exact al_build1_res. Qed.
+Check C17_align_build1 :
+  forall fo pr rf fuel depth s, aligned s -> res_all aligned (build1 fo pr rf fuel depth s).
+
+(* opening / closing a context (the meta-block close truncates code and debug map at the same
+   mark and re-emits the results through code_emit), interning a source, unwinding a failed build *)
+Theorem C17_align_contexts :
+  forall fo rf s, aligned s ->
+  (forall m, res_all aligned (context_open m s)) /\
+  res_all aligned (context_close fo rf s) /\
+  (forall src, res_all aligned (intern_source src s)) /\
+  (forall depth inputs dsl heapl, aligned (build_unwind depth inputs dsl heapl s)).
+Proof. exact al_contexts_res. Qed.
+Check C17_align_contexts :
+  forall fo rf s, aligned s ->
+  (forall m, res_all aligned (context_open m s)) /\
+  res_all aligned (context_close fo rf s) /\
+  (forall src, res_all aligned (intern_source src s)) /\
+  (forall depth inputs dsl heapl, aligned (build_unwind depth inputs dsl heapl s)).
+
+(* whole sources, ALL texts, in the state a success or a failure leaves *)
+Theorem C17_align_eval_compile :
+  forall fo pr rf fuel src s, aligned s ->
+  res_all aligned (eval fo pr rf fuel src s) /\ res_all aligned (compile fo pr rf fuel src s).
+Proof. exact al_eval_compile_res. Qed.
+Check C17_align_eval_compile :
+  forall fo pr rf fuel src s, aligned s ->
+  res_all aligned (eval fo pr rf fuel src s) /\ res_all aligned (compile fo pr rf fuel src s).
+
+(* machine steps *)
+Theorem C17_align_machine :
+  forall fo s, aligned s ->
+  res_all aligned (fetch_and_run (native_fn fo) s) /\
+  res_all aligned (next (native_fn fo) s) /\
+  (forall fuel, match run (native_fn fo) fuel s with Some r => res_all aligned r | None => True end) /\
+  res_all aligned (rnext s).
+Proof. exact al_machine_res. Qed.
+Check C17_align_machine :
+  forall fo s, aligned s ->
+  res_all aligned (fetch_and_run (native_fn fo) s) /\
+  res_all aligned (next (native_fn fo) s) /\
+  (forall fuel, match run (native_fn fo) fuel s with Some r => res_all aligned r | None => True end) /\
+  res_all aligned (rnext s).
+
+(* in fact the machine never writes the debug map, the sources or the last token, and keeps the
+   length of the code (its only write to the code is the in-place patch of a late-bound cell) *)
+Theorem C17_machine_keeps_debug_map :
+  forall fo s,
+  let keeps s' := dbg s' = dbg s /\ sources s' = sources s /\
+                  List.length (code s') = List.length (code s) /\ last_tok s' = last_tok s in
+  res_all keeps (fetch_and_run (native_fn fo) s) /\
+  res_all keeps (next (native_fn fo) s) /\
+  (forall fuel, match run (native_fn fo) fuel s with Some r => res_all keeps r | None => True end) /\
+  res_all keeps (rnext s).
+Proof. exact machine_keeps_map. Qed.
+Check C17_machine_keeps_debug_map :
+  forall fo s,
+  let keeps s' := dbg s' = dbg s /\ sources s' = sources s /\
+                  List.length (code s') = List.length (code s) /\ last_tok s' = last_tok s in
+  res_all keeps (fetch_and_run (native_fn fo) s) /\
+  res_all keeps (next (native_fn fo) s) /\
+  (forall fuel, match run (native_fn fo) fuel s with Some r => res_all keeps r | None => True end) /\
+  res_all keeps (rnext s).
+
+(* hence in every reachable state *)
+Theorem C17_align_reachable :
+  forall fo pr s, reachable fo pr s -> aligned s.
+Proof. exact api_al. Qed.
+Check C17_align_reachable :
+  forall fo pr s, reachable fo pr s -> aligned s.
+
+(* ---------- 3. a run-time error points at the failing cell ---------- *)
+(* a failing instruction step leaves ip at the failing instruction (no opcode and no native
+   word moves ip before failing: natives never touch the current context, and exec_op moves
+   ip only as its last action, which cannot fail), and keeps the debug map and the sources *)
+Theorem C17_runtime_error_keeps_ip :
+  forall fo s k p s',
+  fetch_and_run (native_fn fo) s = RErr k p s' ->
+  ip s' = ip s /\ dbg s' = dbg s /\ sources s' = sources s /\
+  List.length (code s') = List.length (code s).
+Proof. exact far_err_location. Qed.
+Check C17_runtime_error_keeps_ip :
+  forall fo s k p s',
+  fetch_and_run (native_fn fo) s = RErr k p s' ->
+  ip s' = ip s /\ dbg s' = dbg s /\ sources s' = sources s /\
+  List.length (code s') = List.length (code s).
+
+(* what failed: the instruction limit, an unknown late-bound word, or the execution of the
+   instruction stored at ip (for a late-bound cell: of the instruction it resolves to) *)
+Theorem C17_runtime_error_cases :
+  forall fo s k p s',
+  fetch_and_run (native_fn fo) s = RErr k p s' ->
+  (k = ELimit /\ p = None) \/
+  (exists name, nth_error (code s) (ip s) = Some (OResolve name) /\ dict_entry s name = None /\ k = EUnknown) \/
+  (exists op s1, (nth_error (code s) (ip s) = Some op \/
+                  exists name e, nth_error (code s) (ip s) = Some (OResolve name) /\
+                                 dict_entry s name = Some e /\ op = resolve_op e) /\
+                 ip s1 = ip s /\ exec_op (native_fn fo) (ip s) op s1 = RErr k p s').
+Proof. exact far_err_cases. Qed.
+Check C17_runtime_error_cases :
+  forall fo s k p s',
+  fetch_and_run (native_fn fo) s = RErr k p s' ->
+  (k = ELimit /\ p = None) \/
+  (exists name, nth_error (code s) (ip s) = Some (OResolve name) /\ dict_entry s name = None /\ k = EUnknown) \/
+  (exists op s1, (nth_error (code s) (ip s) = Some op \/
+                  exists name e, nth_error (code s) (ip s) = Some (OResolve name) /\
+                                 dict_entry s name = Some e /\ op = resolve_op e) /\
+                 ip s1 = ip s /\ exec_op (native_fn fo) (ip s) op s1 = RErr k p s').
+
+(* a failing run (any number of calls, loops, returns before the failure): the state it leaves
+   has ip at the instruction whose step failed, inside the code, and - under alignment - the
+   debug map has an entry there, the one the build recorded for that cell *)
+Theorem C17_run_error_location :
+  forall fo fuel s k p s',
+  run (native_fn fo) fuel s = Some (RErr k p s') ->
+  exists n s1,
+    steps (native_fn fo) n s = Some s1 /\ is_running s1 = true /\
+    fetch_and_run (native_fn fo) s1 = RErr k p s' /\
+    ip s' = ip s1 /\ dbg s' = dbg s /\ sources s' = sources s /\
+    ip s' < List.length (code s') /\
+    (aligned s -> exists t, nth_error (dbg s') (ip s') = Some t /\ nth_error (dbg s) (ip s1) = Some t).
+Proof. exact run_err_location. Qed.
+Check C17_run_error_location :
+  forall fo fuel s k p s',
+  run (native_fn fo) fuel s = Some (RErr k p s') ->
+  exists n s1,
+    steps (native_fn fo) n s = Some s1 /\ is_running s1 = true /\
+    fetch_and_run (native_fn fo) s1 = RErr k p s' /\
+    ip s' = ip s1 /\ dbg s' = dbg s /\ sources s' = sources s /\
+    ip s' < List.length (code s') /\
+    (aligned s -> exists t, nth_error (dbg s') (ip s') = Some t /\ nth_error (dbg s) (ip s1) = Some t).
+
+(* ---------- non-vacuity ---------- *)
+Definition ex_z2 (a b : Z) : Z := 0%Z.
+Definition ex_fo : fops := fops_with ex_z2 ex_z2 ex_z2 ex_z2 ex_z2 ex_z2 ex_z2.
+Definition ex_pr (s : string) : option Z := None.
+Definition ex_state {A} (r : res A) : state := match r with ROk _ s => s | RErr _ _ s => s | _ => boot end.
+Definition ex_src : string := ": f 1 0 / ; f"%string.
+Definition ex_compiled : state := ex_state (compile ex_fo ex_pr 100 100 ex_src boot).
+
+Example C17_reachable_nonvacuous : reachable ex_fo ex_pr boot /\ reachable ex_fo ex_pr ex_compiled.
+Proof.
+  split.
+  - intros P H0 _ _ _ _ _ _ _. exact H0.
+  - intros P H0 _ H2 _ _ _ _ _. eapply (H2 boot 100 100 ex_src); [exact H0|]. vm_compute. reflexivity.
+Qed.
+
+(* the division inside the called definition fails: ip is inside the body of f, the debug
+   entry there is the span of "/", and the location scan gives line 0, column 8 *)
+Example C17_run_error_nonvacuous :
+  code ex_compiled = [OJump 5; OLoadI64 1; OLoadI64 0; ONative "/"; ORet; OCall 1] /\
+  dbg ex_compiled = [(0, 2, 3); (0, 4, 5); (0, 6, 7); (0, 8, 9); (0, 10, 11); (0, 12, 13)] /\
+  exists s', run (native_fn ex_fo) 100 ex_compiled = Some (RErr EDivZero None s') /\
+             ip s' = 3 /\ nth_error (code s') (ip s') = Some (ONative "/") /\
+             nth_error (dbg s') (ip s') = Some (0, 8, 9) /\
+             nth_error (sources s') 0 = Some ex_src /\
+             substring_of ex_src 8 9 = "/"%string /\
+             token_location ex_src 8 = (0, 8, 0, 13).
+Proof. vm_compute. split; [reflexivity|]. split; [reflexivity|]. eexists. repeat split. Qed.
+
+(* ====================================================================================== *)
+(* ---------- 2. provenance of the debug entries ---------- *)
+(* Definitions (Proofs/DbgMapProv.v):
+     nonws t               t is not a whitespace / comment token
+     is_token_span src a b := exists t, In (t, a, b) (lex_string src) /\ nonws t = true
+     tok_ok s (n, a, b)    := n < length (sources s) /\ is_token_span (nth n (sources s) "") a b
+     dbg_ok s              := Forall (tok_ok s) (dbg s)
+     last_ok s             := the last token, if any, is tok_ok
+     inputs_ok s           := every pending input lexer reads a source of s and is "live": all the
+                              tokens it will still produce are tokens of lex_string of that source
+     tok_ready s           := a token has been read, or no meta context is open
+     PE s := aligned s /\ dbg_ok s /\ last_ok s /\ tok_ready s     (left by a failure)
+     P0 s := PE s /\ inputs_ok s                                  (between two tokens of build1)
+     P1 s := P0 s /\ last_tok s <> None                           (while a token is compiled)
+     PT s := PE s /\ input s = []                                 (between API calls) *)
+
+(* the token read by get_token is recorded as the last token and is a token of its source:
+   a word token for a word, a literal token for a literal (a real literal: the TReal token whose
+   text parses), the offending token for a lexical error; at the end of all input, nothing is
+   pending *)
+Theorem C17_provenance_token_read :
+  forall pr s, P0 s ->
+  match get_token pr s with
+  | ROk BEnd s' => P0 s' /\ input s' = [] /\ (last_tok s <> None -> last_tok s' <> None)
+  | ROk (BWord w) s' => P1 s' /\ last_is s' (TWord w)
+  | ROk (BLit c) s' =>
+    P1 s' /\ (last_is s' (TLit c) \/
+              exists txt r, last_is s' (TReal txt) /\ pr txt = Some r /\ c = CReal r)
+  | RErr k _ s' =>
+    PE s' /\ k = EParse /\
+    ((exists e x y, last_is s' (TErr e x y)) \/ (exists txt, last_is s' (TReal txt) /\ pr txt = None))
+  | _ => True
+  end.
+Proof. exact get_token_prov. Qed.
+Check C17_provenance_token_read :
+  forall pr s, P0 s ->
+  match get_token pr s with
+  | ROk BEnd s' => P0 s' /\ input s' = [] /\ (last_tok s <> None -> last_tok s' <> None)
+  | ROk (BWord w) s' => P1 s' /\ last_is s' (TWord w)
+  | ROk (BLit c) s' =>
+    P1 s' /\ (last_is s' (TLit c) \/
+              exists txt r, last_is s' (TReal txt) /\ pr txt = Some r /\ c = CReal r)
+  | RErr k _ s' =>
+    PE s' /\ k = EParse /\
+    ((exists e x y, last_is s' (TErr e x y)) \/ (exists txt, last_is s' (TReal txt) /\ pr txt = None))
+  | _ => True
+  end.
+
+(* an emission appends exactly the current token, which is a token of a source: for a literal
+   the literal's token, for a word call the word's token, for an immediate control word the
+   control word's token (or the last token that word read itself, e.g. the name after ":") *)
+Theorem C17_provenance_emit :
+  forall op s, P1 s ->
+  exists t s', last_tok s = Some t /\ code_emit op s = ROk tt s' /\
+               dbg s' = dbg s ++ [t] /\ code s' = code s ++ [op] /\ tok_ok s' t /\ P1 s' .
+Proof. exact prov_emit_entry. Qed.
+Check C17_provenance_emit :
+  forall op s, P1 s ->
+  exists t s', last_tok s = Some t /\ code_emit op s = ROk tt s' /\
+               dbg s' = dbg s ++ [t] /\ code s' = code s ++ [op] /\ tok_ok s' t /\ P1 s' .
+
+Theorem C17_provenance_immediate_words :
+  forall fo pr rf fuel name w, immediate_fn fo pr rf fuel name = Some w ->
+  forall s, P1 s -> match w s with ROk _ s' => P1 s' | RErr _ _ s' => PE s' | _ => True end.
+Proof. exact prov_immediate_fn. Qed.
+Check C17_provenance_immediate_words :
+  forall fo pr rf fuel name w, immediate_fn fo pr rf fuel name = Some w ->
+  forall s, P1 s -> match w s with ROk _ s' => P1 s' | RErr _ _ s' => PE s' | _ => True end.
+
+Theorem C17_provenance_build_word :
+  forall fo pr rf fuel name s, P1 s ->
+  match build_word fo pr rf fuel name s with ROk _ s' => P1 s' | RErr _ _ s' => PE s' | _ => True end.
+Proof. exact prov_build_word. Qed.
+Check C17_provenance_build_word :
+  forall fo pr rf fuel name s, P1 s ->
+  match build_word fo pr rf fuel name s with ROk _ s' => P1 s' | RErr _ _ s' => PE s' | _ => True end.
+
+Theorem C17_provenance_build1 :
+  forall fo pr rf fuel depth s, P0 s ->
+  match build1 fo pr rf fuel depth s with ROk _ s' => P0 s' | RErr _ _ s' => PE s' | _ => True end.
+Proof. exact prov_build1. Qed.
+Check C17_provenance_build1 :
+  forall fo pr rf fuel depth s, P0 s ->
+  match build1 fo pr rf fuel depth s with ROk _ s' => P0 s' | RErr _ _ s' => PE s' | _ => True end.
+
+Theorem C17_provenance_contexts :
+  forall fo rf s, P1 s ->
+  (forall m, match context_open m s with ROk _ s' => P1 s' | RErr _ _ s' => PE s' | _ => True end) /\
+  match context_close fo rf s with ROk _ s' => P1 s' | RErr _ _ s' => PE s' | _ => True end /\
+  (forall t, match intern_source t s with ROk _ s' => P1 s' | RErr _ _ s' => PE s' | _ => True end).
+Proof. exact prov_contexts_res. Qed.
+Check C17_provenance_contexts :
+  forall fo rf s, P1 s ->
+  (forall m, match context_open m s with ROk _ s' => P1 s' | RErr _ _ s' => PE s' | _ => True end) /\
+  match context_close fo rf s with ROk _ s' => P1 s' | RErr _ _ s' => PE s' | _ => True end /\
+  (forall t, match intern_source t s with ROk _ s' => P1 s' | RErr _ _ s' => PE s' | _ => True end).
+
+(* unwinding a failed build keeps the invariant, the last token and the sources, and drops the
+   unread input *)
+Theorem C17_provenance_build_unwind :
+  forall depth inputs dsl heapl s, PE s ->
+  PE (build_unwind depth inputs dsl heapl s) /\
+  (inputs = 0 -> input (build_unwind depth inputs dsl heapl s) = []) /\
+  last_tok (build_unwind depth inputs dsl heapl s) = last_tok s /\
+  sources (build_unwind depth inputs dsl heapl s) = sources s.
+Proof. exact prov_unwind_res. Qed.
+Check C17_provenance_build_unwind :
+  forall depth inputs dsl heapl s, PE s ->
+  PE (build_unwind depth inputs dsl heapl s) /\
+  (inputs = 0 -> input (build_unwind depth inputs dsl heapl s) = []) /\
+  last_tok (build_unwind depth inputs dsl heapl s) = last_tok s /\
+  sources (build_unwind depth inputs dsl heapl s) = sources s.
+
+Theorem C17_provenance_eval_compile :
+  forall fo pr rf fuel src s, PT s ->
+  res_all PT (eval fo pr rf fuel src s) /\ res_all PT (compile fo pr rf fuel src s).
+Proof. exact prov_eval_compile_res. Qed.
+Check C17_provenance_eval_compile :
+  forall fo pr rf fuel src s, PT s ->
+  res_all PT (eval fo pr rf fuel src s) /\ res_all PT (compile fo pr rf fuel src s).
+
+Theorem C17_provenance_machine :
+  forall fo s, PT s ->
+  res_all PT (fetch_and_run (native_fn fo) s) /\
+  res_all PT (next (native_fn fo) s) /\
+  (forall fuel, match run (native_fn fo) fuel s with Some r => res_all PT r | None => True end) /\
+  res_all PT (rnext s).
+Proof. exact prov_machine_res. Qed.
+Check C17_provenance_machine :
+  forall fo s, PT s ->
+  res_all PT (fetch_and_run (native_fn fo) s) /\
+  res_all PT (next (native_fn fo) s) /\
+  (forall fuel, match run (native_fn fo) fuel s with Some r => res_all PT r | None => True end) /\
+  res_all PT (rnext s).
+
+Theorem C17_provenance_boot :
+  PT boot.
+Proof. exact PT_boot. Qed.
+Check C17_provenance_boot :
+  PT boot.
+
+(* in every reachable state: every debug entry (and the last token) names an existing source
+   and is the span of a token the lexer produces for that text; for valid UTF-8 the span lies
+   inside the text *)
+Definition located (s : state) (t : tokref) : Prop :=
+  let '(n, a, b) := t in
+  exists src, nth_error (sources s) n = Some src /\
+              (exists tk, In (tk, a, b) (lex_string src) /\ nonws tk = true) /\
+              (valid_utf8 src = true -> a <= b /\ b <= String.length src).
+
+Theorem C17_provenance_reachable :
+  forall fo pr s, reachable fo pr s ->
+  (forall i t, nth_error (dbg s) i = Some t -> located s t) /\
+  (forall t, last_tok s = Some t -> located s t) /\
+  input s = [].
+Proof. exact api_prov. Qed.
+Check C17_provenance_reachable :
+  forall fo pr s, reachable fo pr s ->
+  (forall i t, nth_error (dbg s) i = Some t -> located s t) /\
+  (forall t, last_tok s = Some t -> located s t) /\
+  input s = [].
+
+(* ... so the location computed from an entry (run-time errors) or from the last token
+   (build-time errors) is the true line / column / line span of a real token of the named
+   source (line/column computation: C17_token_location_line_col) *)
+Theorem C17_location_of_entry_is_true_position :
+  forall fo pr s i n a b src,
+  reachable fo pr s -> nth_error (dbg s) i = Some (n, a, b) -> nth_error (sources s) n = Some src ->
+  (exists tk, In (tk, a, b) (lex_string src) /\ nonws tk = true) /\
+  (valid_utf8 src = true ->
+   a <= b /\ b <= String.length src /\
+   (src <> EmptyString ->
+    token_location src a = (spec_line src a, spec_col src a, spec_line_start src a, spec_line_end src a))).
+Proof. exact api_location. Qed.
+Check C17_location_of_entry_is_true_position :
+  forall fo pr s i n a b src,
+  reachable fo pr s -> nth_error (dbg s) i = Some (n, a, b) -> nth_error (sources s) n = Some src ->
+  (exists tk, In (tk, a, b) (lex_string src) /\ nonws tk = true) /\
+  (valid_utf8 src = true ->
+   a <= b /\ b <= String.length src /\
+   (src <> EmptyString ->
+    token_location src a = (spec_line src a, spec_col src a, spec_line_start src a, spec_line_end src a))).
+
+Theorem C17_location_of_last_token_is_true_position :
+  forall fo pr s n a b src,
+  reachable fo pr s -> last_tok s = Some (n, a, b) -> nth_error (sources s) n = Some src ->
+  (exists tk, In (tk, a, b) (lex_string src) /\ nonws tk = true) /\
+  (valid_utf8 src = true ->
+   a <= b /\ b <= String.length src /\
+   (src <> EmptyString ->
+    token_location src a = (spec_line src a, spec_col src a, spec_line_start src a, spec_line_end src a))).
+Proof. exact api_location_last. Qed.
+Check C17_location_of_last_token_is_true_position :
+  forall fo pr s n a b src,
+  reachable fo pr s -> last_tok s = Some (n, a, b) -> nth_error (sources s) n = Some src ->
+  (exists tk, In (tk, a, b) (lex_string src) /\ nonws tk = true) /\
+  (valid_utf8 src = true ->
+   a <= b /\ b <= String.length src /\
+   (src <> EmptyString ->
+    token_location src a = (spec_line src a, spec_col src a, spec_line_start src a, spec_line_end src a))).
+
+(* ---------- 5. several sources ---------- *)
+(* building a source (success or failure, eval or compile, meta blocks and unwinding included)
+   keeps the debug entries of everything built before as a prefix, and appends its text (and
+   the texts it injects) to the sources *)
+Theorem C17_multi_source_prefix :
+  forall fo pr rf fuel src s, aligned s ->
+  let keeps s' :=
+      firstn (List.length (dbg s)) (dbg s') = dbg s /\ List.length (dbg s) <= List.length (dbg s') /\
+      (exists ext, sources s' = sources s ++ src :: ext) /\ aligned s' in
+  res_all keeps (eval fo pr rf fuel src s) /\ res_all keeps (compile fo pr rf fuel src s).
+Proof. exact multi_eval_compile_res. Qed.
+Check C17_multi_source_prefix :
+  forall fo pr rf fuel src s, aligned s ->
+  let keeps s' :=
+      firstn (List.length (dbg s)) (dbg s') = dbg s /\ List.length (dbg s) <= List.length (dbg s') /\
+      (exists ext, sources s' = sources s ++ src :: ext) /\ aligned s' in
+  res_all keeps (eval fo pr rf fuel src s) /\ res_all keeps (compile fo pr rf fuel src s).
+
+Theorem C17_multi_source_entries :
+  forall s src s',
+  (firstn (List.length (dbg s)) (dbg s') = dbg s /\ List.length (dbg s) <= List.length (dbg s') /\
+   (exists ext, sources s' = sources s ++ src :: ext) /\ aligned s') ->
+  (forall i t, nth_error (dbg s) i = Some t -> nth_error (dbg s') i = Some t) /\
+  (forall n txt, nth_error (sources s) n = Some txt -> nth_error (sources s') n = Some txt) /\
+  nth_error (sources s') (List.length (sources s)) = Some src.
+Proof. exact keeps_earlier_entries. Qed.
+Check C17_multi_source_entries :
+  forall s src s',
+  (firstn (List.length (dbg s)) (dbg s') = dbg s /\ List.length (dbg s) <= List.length (dbg s') /\
+   (exists ext, sources s' = sources s ++ src :: ext) /\ aligned s') ->
+  (forall i t, nth_error (dbg s) i = Some t -> nth_error (dbg s') i = Some t) /\
+  (forall n txt, nth_error (sources s) n = Some txt -> nth_error (sources s') n = Some txt) /\
+  nth_error (sources s') (List.length (sources s)) = Some src.
+
+Theorem C17_intern_source_appends :
+  forall t s,
+  intern_source t s = ROk tt (set_input (set_sources s (sources s ++ [t]))
+                                        (mkinlex (List.length (sources s)) (lex_new t) :: input s)).
+Proof. exact intern_source_appends. Qed.
+Check C17_intern_source_appends :
+  forall t s,
+  intern_source t s = ROk tt (set_input (set_sources s (sources s ++ [t]))
+                                        (mkinlex (List.length (sources s)) (lex_new t) :: input s)).
+
+(* ---------- 4. build-time errors ---------- *)
+(* the last token is a word token with text w at its true place *)
+Definition last_token_is_word (s : state) (w : string) : Prop :=
+  exists n a b src, last_tok s = Some (n, a, b) /\ nth_error (sources s) n = Some src /\
+                    In (TWord w, a, b) (lex_string src) /\ w = substring_of src a b.
+
+Theorem C17_build_word_token_recorded :
+  forall pr s w s1, P0 s -> get_token pr s = ROk (BWord w) s1 ->
+  last_token_is_word s1 w /\ P1 s1.
+Proof. exact get_token_word. Qed.
+Check C17_build_word_token_recorded :
+  forall pr s w s1, P0 s -> get_token pr s = ROk (BWord w) s1 ->
+  last_token_is_word s1 w /\ P1 s1.
+
+(* an unknown word: build1 fails with the state get_token left, whose last token is the word
+   itself (the pre-token step is the run of a meta block's code compiled so far) *)
+Theorem C17_build_unknown_word :
+  forall fo pr rf f d s s0 w s1,
+  P0 s ->
+  (if mode_eqb (cmode (cx s)) MMeta && negb (has_pending_flow s) then run_m fo rf else ret tt) s = ROk tt s0 ->
+  get_token pr s0 = ROk (BWord w) s1 ->
+  match top_function_flow s1 with
+  | Some (_, _, ls) => rposition ls w 0 None = None
+  | None => True
+  end ->
+  dict_entry s1 w = None ->
+  build1 fo pr rf (S f) d s = RErr EUnknown None s1 /\ last_token_is_word s1 w.
+Proof. exact build1_unknown_word. Qed.
+Check C17_build_unknown_word :
+  forall fo pr rf f d s s0 w s1,
+  P0 s ->
+  (if mode_eqb (cmode (cx s)) MMeta && negb (has_pending_flow s) then run_m fo rf else ret tt) s = ROk tt s0 ->
+  get_token pr s0 = ROk (BWord w) s1 ->
+  match top_function_flow s1 with
+  | Some (_, _, ls) => rposition ls w 0 None = None
+  | None => True
+  end ->
+  dict_entry s1 w = None ->
+  build1 fo pr rf (S f) d s = RErr EUnknown None s1 /\ last_token_is_word s1 w.
+
+Theorem C17_build_setvar_unknown :
+  forall pr s name s1, P0 s ->
+  next_name pr s = ROk name s1 -> dict_entry s1 name = None ->
+  i_setvar pr s = RErr EUnknown None s1 /\ last_token_is_word s1 name.
+Proof. exact setvar_unknown. Qed.
+Check C17_build_setvar_unknown :
+  forall pr s name s1, P0 s ->
+  next_name pr s = ROk name s1 -> dict_entry s1 name = None ->
+  i_setvar pr s = RErr EUnknown None s1 /\ last_token_is_word s1 name.
+
+Theorem C17_build_lexical_error :
+  forall pr s k p s1, P0 s -> get_token pr s = RErr k p s1 ->
+  k = EParse /\ PE s1 /\
+  ((exists e x y, last_is s1 (TErr e x y)) \/ (exists txt, last_is s1 (TReal txt) /\ pr txt = None)).
+Proof. exact get_token_error. Qed.
+Check C17_build_lexical_error :
+  forall pr s k p s1, P0 s -> get_token pr s = RErr k p s1 ->
+  k = EParse /\ PE s1 /\
+  ((exists e x y, last_is s1 (TErr e x y)) \/ (exists txt, last_is s1 (TReal txt) /\ pr txt = None)).
+
+(* whatever fails while a source is built: eval / compile return that error, in a state whose
+   last token is the one recorded at the failure (unwinding keeps it and the sources) *)
+Theorem C17_build_error_last_token :
+  forall fo pr rf fuel src m s k p s2, m <> MMeta -> PT s ->
+  build1 fo pr rf fuel (List.length (nested (start_state src m s))) (start_state src m s) = RErr k p s2 ->
+  exists s', build_from_source fo pr rf fuel src m s = RErr k p s' /\
+             last_tok s' = last_tok s2 /\ sources s' = sources s2 /\ PT s' /\ PE s2.
+Proof. exact build_error_last_tok. Qed.
+Check C17_build_error_last_token :
+  forall fo pr rf fuel src m s k p s2, m <> MMeta -> PT s ->
+  build1 fo pr rf fuel (List.length (nested (start_state src m s))) (start_state src m s) = RErr k p s2 ->
+  exists s', build_from_source fo pr rf fuel src m s = RErr k p s' /\
+             last_tok s' = last_tok s2 /\ sources s' = sources s2 /\ PT s' /\ PE s2.
+
+(* ---------- 3, at source level ---------- *)
+(* eval built the whole text (build1 succeeded, leaving s2) and then its code failed: the state
+   eval leaves has ip at the failing instruction (reached by successful steps, possibly inside
+   called definitions and loops), and the debug map - that of s2 - has an entry there *)
+Theorem C17_eval_runtime_error :
+  forall fo pr rf fuel src s s2 k p s',
+  aligned s -> cmode (cx s) = MEval ->
+  build1 fo pr rf fuel (List.length (nested (start_state src MEval s))) (start_state src MEval s) = ROk tt s2 ->
+  eval fo pr rf fuel src s = RErr k p s' ->
+  exists n s3,
+    steps (native_fn fo) n (set_nested s2 (tl (nested s2))) = Some s3 /\ is_running s3 = true /\
+    (exists s4, fetch_and_run (native_fn fo) s3 = RErr k p s4) /\
+    ip s' = ip s3 /\ dbg s' = dbg s2 /\ sources s' = sources s2 /\
+    (exists t, nth_error (dbg s') (ip s') = Some t /\ nth_error (dbg s2) (ip s3) = Some t) /\
+    firstn (List.length (dbg s)) (dbg s') = dbg s.
+Proof. exact eval_runtime_error. Qed.
+Check C17_eval_runtime_error :
+  forall fo pr rf fuel src s s2 k p s',
+  aligned s -> cmode (cx s) = MEval ->
+  build1 fo pr rf fuel (List.length (nested (start_state src MEval s))) (start_state src MEval s) = ROk tt s2 ->
+  eval fo pr rf fuel src s = RErr k p s' ->
+  exists n s3,
+    steps (native_fn fo) n (set_nested s2 (tl (nested s2))) = Some s3 /\ is_running s3 = true /\
+    (exists s4, fetch_and_run (native_fn fo) s3 = RErr k p s4) /\
+    ip s' = ip s3 /\ dbg s' = dbg s2 /\ sources s' = sources s2 /\
+    (exists t, nth_error (dbg s') (ip s') = Some t /\ nth_error (dbg s2) (ip s3) = Some t) /\
+    firstn (List.length (dbg s)) (dbg s') = dbg s.
+
+(* ---------- non-vacuity, continued ---------- *)
+(* the hypotheses P0 / PT are met: boot, and the start of any build from a PT state *)
+Example C17_invariants_nonvacuous :
+  PT boot /\ P0 (start_state "1 foo 2"%string MEval boot) /\ PT ex_compiled.
+Proof.
+  split; [exact PT_boot|]. split; [apply P0_start_state; [discriminate|exact PT_boot]|].
+  pose proof (PT_compile ex_fo ex_pr 100 100 ex_src boot PT_boot) as H.
+  unfold ex_compiled. destruct (compile ex_fo ex_pr 100 100 ex_src boot); try exact H; exact PT_boot.
+Qed.
+
+(* an unknown word: the error state names the word itself, line 0 column 2; the rejected
+   source left no debug entries *)
+Example C17_unknown_word_nonvacuous :
+  exists s', eval ex_fo ex_pr 100 100 "1 foo 2"%string boot = RErr EUnknown None s' /\
+             last_tok s' = Some (0, 2, 5) /\ nth_error (sources s') 0 = Some "1 foo 2"%string /\
+             substring_of "1 foo 2"%string 2 5 = "foo"%string /\
+             token_location "1 foo 2"%string 2 = (0, 2, 0, 7) /\ dbg s' = [] /\ code s' = [].
+Proof. vm_compute. eexists. repeat split. Qed.
+
+(* eval of a text whose code fails after the build: the premises of C17_eval_runtime_error *)
+Example C17_eval_runtime_error_nonvacuous :
+  aligned boot /\ cmode (cx boot) = MEval /\
+  (exists s2, build1 ex_fo ex_pr 100 100 (List.length (nested (start_state ex_src MEval boot)))
+                     (start_state ex_src MEval boot) = ROk tt s2) /\
+  exists s', eval ex_fo ex_pr 100 100 ex_src boot = RErr EDivZero None s' /\
+             nth_error (dbg s') (ip s') = Some (0, 8, 9).
+Proof.
+  split; [reflexivity|]. split; [reflexivity|]. split; vm_compute; eexists; repeat split.
+Qed.
+
+(* a second source, rejected: the entries of the first are untouched, its text is appended *)
+Example C17_multi_source_nonvacuous :
+  exists s', eval ex_fo ex_pr 100 100 "7 bar"%string ex_compiled = RErr EUnknown None s' /\
+             dbg s' = dbg ex_compiled /\ sources s' = [ex_src; "7 bar"%string] /\
+             last_tok s' = Some (1, 2, 5).
+Proof. vm_compute. eexists. repeat split. Qed.
+
+(* a word compiled inside a definition is located at its own token even when the failing call
+   comes from a later source: the second source calls f, the error entry belongs to source 0 *)
+Example C17_error_in_earlier_source_nonvacuous :
+  let s1 := ex_state (compile ex_fo ex_pr 100 100 ": g 1 0 / ;"%string boot) in
+  exists s', eval ex_fo ex_pr 100 100 "g"%string s1 = RErr EDivZero None s' /\
+             nth_error (dbg s') (ip s') = Some (0, 8, 9) /\
+             sources s' = [": g 1 0 / ;"%string; "g"%string].
+Proof. vm_compute. eexists. repeat split. Qed.
+
+(* the state in which a token is compiled (hypothesis P1): after the first token of a source *)
+Example C17_P1_nonvacuous :
+  exists s1, get_token ex_pr (start_state "1 foo 2"%string MEval boot) = ROk (BLit (CInt 1)) s1 /\ P1 s1 /\
+             last_tok s1 = Some (0, 0, 1).
+Proof.
+  pose proof (get_token_prov ex_pr (start_state "1 foo 2"%string MEval boot)
+                (P0_start_state "1 foo 2"%string MEval boot ltac:(discriminate) PT_boot)) as H.
+  destruct (get_token ex_pr (start_state "1 foo 2"%string MEval boot)) as [t s1|k p s1| |] eqn:E;
+    vm_compute in E; try discriminate.
+  injection E as <- E. exists s1. split; [reflexivity|]. split; [exact (proj1 H)|].
+  rewrite <- E. reflexivity.
+Qed.
+
+(* ---------- which token a cell gets (2, continued) ---------- *)
+(* a literal compiles to one cell tagged with the literal's own token *)
+Theorem C17_literal_cell_token :
+  forall pr s v s1, P0 s -> get_token pr s = ROk (BLit v) s1 ->
+  exists t s2, last_tok s1 = Some t /\ tok_ok s1 t /\
+               code_emit_value v s1 = ROk tt s2 /\
+               dbg s2 = dbg s1 ++ [t] /\ code s2 = code s1 ++ [load_value_opcode v] /\
+               (last_is s1 (TLit v) \/
+                exists txt r, last_is s1 (TReal txt) /\ pr txt = Some r /\ v = CReal r).
+Proof. exact literal_cell. Qed.
+Check C17_literal_cell_token :
+  forall pr s v s1, P0 s -> get_token pr s = ROk (BLit v) s1 ->
+  exists t s2, last_tok s1 = Some t /\ tok_ok s1 t /\
+               code_emit_value v s1 = ROk tt s2 /\
+               dbg s2 = dbg s1 ++ [t] /\ code s2 = code s1 ++ [load_value_opcode v] /\
+               (last_is s1 (TLit v) \/
+                exists txt r, last_is s1 (TReal txt) /\ pr txt = Some r /\ v = CReal r).
+
+(* a word that is not immediate compiles to one cell tagged with the word's own token *)
+Theorem C17_word_cell_token :
+  forall fo pr rf fuel s w s1 e, P0 s -> get_token pr s = ROk (BWord w) s1 ->
+  dict_entry s1 w = Some e -> (forall f len, e <> DFun true f len) ->
+  build_word fo pr rf fuel w s1 = code_emit (resolve_op e) s1 /\
+  exists t s2, last_tok s1 = Some t /\ code_emit (resolve_op e) s1 = ROk tt s2 /\
+               dbg s2 = dbg s1 ++ [t] /\ code s2 = code s1 ++ [resolve_op e] /\
+               last_token_is_word s1 w.
+Proof. exact word_cell. Qed.
+Check C17_word_cell_token :
+  forall fo pr rf fuel s w s1 e, P0 s -> get_token pr s = ROk (BWord w) s1 ->
+  dict_entry s1 w = Some e -> (forall f len, e <> DFun true f len) ->
+  build_word fo pr rf fuel w s1 = code_emit (resolve_op e) s1 /\
+  exists t s2, last_tok s1 = Some t /\ code_emit (resolve_op e) s1 = ROk tt s2 /\
+               dbg s2 = dbg s1 ++ [t] /\ code s2 = code s1 ++ [resolve_op e] /\
+               last_token_is_word s1 w.
+
+(* the machine's only write to the code: a late-bound cell is replaced, in place, by the
+   instruction it resolves to (the debug entry of the cell stays) *)
+Theorem C17_machine_code_change :
+  forall fo s,
+  res_all (fun s' => code s' = code s \/
+                     exists name e, nth_error (code s) (ip s) = Some (OResolve name) /\
+                                    dict_entry s name = Some e /\
+                                    code s' = list_set (code s) (ip s) (resolve_op e))
+          (fetch_and_run (native_fn fo) s).
+Proof. exact far_code_change. Qed.
+Check C17_machine_code_change :
+  forall fo s,
+  res_all (fun s' => code s' = code s \/
+                     exists name e, nth_error (code s) (ip s) = Some (OResolve name) /\
+                                    dict_entry s name = Some e /\
+                                    code s' = list_set (code s) (ip s) (resolve_op e))
+          (fetch_and_run (native_fn fo) s).
+
+
+(* ---------- run-time errors inside meta blocks ---------- *)
+(* the code of a meta block runs between two tokens of build1; when it fails, build1 returns
+   the state of the failing run: ip at the failing instruction (possibly inside a definition
+   called from the block), and the debug map has the entry of that cell *)
+Theorem C17_meta_run_error_location :
+  forall fo pr rf f d s k p s',
+  aligned s ->
+  (if mode_eqb (cmode (cx s)) MMeta && negb (has_pending_flow s) then run_m fo rf else ret tt) s = RErr k p s' ->
+  build1 fo pr rf (S f) d s = RErr k p s' /\ cmode (cx s) = MMeta /\
+  exists n s1,
+    steps (native_fn fo) n s = Some s1 /\ is_running s1 = true /\
+    fetch_and_run (native_fn fo) s1 = RErr k p s' /\
+    ip s' = ip s1 /\ dbg s' = dbg s /\ sources s' = sources s /\
+    exists t, nth_error (dbg s') (ip s') = Some t /\ nth_error (dbg s) (ip s1) = Some t.
+Proof. exact build1_meta_run_error. Qed.
+Check C17_meta_run_error_location :
+  forall fo pr rf f d s k p s',
+  aligned s ->
+  (if mode_eqb (cmode (cx s)) MMeta && negb (has_pending_flow s) then run_m fo rf else ret tt) s = RErr k p s' ->
+  build1 fo pr rf (S f) d s = RErr k p s' /\ cmode (cx s) = MMeta /\
+  exists n s1,
+    steps (native_fn fo) n s = Some s1 /\ is_running s1 = true /\
+    fetch_and_run (native_fn fo) s1 = RErr k p s' /\
+    ip s' = ip s1 /\ dbg s' = dbg s /\ sources s' = sources s /\
+    exists t, nth_error (dbg s') (ip s') = Some t /\ nth_error (dbg s) (ip s1) = Some t.
+
+(* MODEL LIMIT (finding): eval / compile return the UNWOUND state, in which the debug entries
+   of the rejected source are gone; the model state has no field holding the location computed
+   at the moment of the failure (the implementation's last_error), so for a run-time failure
+   inside a meta block the failing token cannot be read off the state eval returns - there the
+   last token is the token compiled last (here the call "f"), not the failing "/" *)
+Example C17_meta_error_location_not_in_final_state :
+  exists s', eval ex_fo ex_pr 100 100 "#( : f 1 0 / ; f #)"%string boot = RErr EDivZero None s' /\
+             dbg s' = [] /\ nth_error (dbg s') (ip s') = None /\
+             last_tok s' = Some (0, 15, 16) /\
+             substring_of "#( : f 1 0 / ; f #)"%string 15 16 = "f"%string /\
+             substring_of "#( : f 1 0 / ; f #)"%string 11 12 = "/"%string.
+Proof. vm_compute. eexists. repeat split. Qed.
